@@ -76,7 +76,11 @@ func GenPDUSpec(rng *rand.Rand, i int) PDUSpec {
 	s := PDUSpec{Sys: SysID{0x0a, 0x0b, uint8(rng.IntN(256)), uint8(rng.IntN(256)), 0, uint8(i)}}
 	areas := func() [][]byte {
 		var as [][]byte
-		for k := rng.IntN(4); k > 0; k-- {
+		k := rng.IntN(4)
+		if rng.IntN(4) == 0 {
+			k = rng.IntN(13) // more than the three of ISO 10589's default maximumAreaAddresses: bio-rd sets no limit
+		}
+		for ; k > 0; k-- {
 			a := make([]byte, 1+rng.IntN(13))
 			for j := range a {
 				a[j] = uint8(rng.IntN(256))
@@ -1011,7 +1015,11 @@ func GenWirePDU(rng *rand.Rand, i int) []byte {
 	copy(nb[:], sysY[:])
 	areas := func() TLV {
 		var as [][]byte
-		for k := rng.IntN(4); k > 0; k-- {
+		k := rng.IntN(4)
+		if rng.IntN(4) == 0 {
+			k = rng.IntN(13) // more than the three of ISO 10589's default maximumAreaAddresses: bio-rd sets no limit
+		}
+		for ; k > 0; k-- {
 			a := make([]byte, 1+rng.IntN(13))
 			for j := range a {
 				a[j] = uint8(rng.IntN(256))
